@@ -7,7 +7,7 @@ namespace TV
 namespace Kernel
 
 theorem live_emit {k : Kernel} {o : List Fd} (p : Pkt) (h : Live k o) : Live (k.emit p) o :=
-  ⟨h.tinv, h.cinv, h.lown, h.live, h.fix⟩
+  ⟨h.tinv, h.cinv, h.rinv, h.lown, h.live, h.fix⟩
 
 theorem foldl_live {α : Type} (o : List Fd) (step : Kernel → α → Kernel)
     (hstep : ∀ k a, Live k o → Live (step k a) o) (l : List α) (k : Kernel) (h : Live k o) :
@@ -24,12 +24,16 @@ theorem live_modify (k : Kernel) (fd : Fd) (f : Sock → Sock) (o o' : List Fd)
     (hrd : ∀ s ∈ k.tbl.socks, s.fd = fd → ∀ rd, s.listen = some rd →
       ∃ rd', (f s).listen = some rd' ∧ ∀ y ∈ rd, y ∈ rd' ∨ y ∈ o')
     (hsub : ∀ s ∈ k.tbl.socks, s.fd ≠ fd → s.fd ∈ o → s.fd ∈ o')
+    (htcb : ∀ s, s.tcb.isSome = true → (f s).tcb.isSome = true)
+    (hq : ∀ s ∈ k.tbl.socks, s.fd = fd → ∀ rd', (f s).listen = some rd' → ∀ y ∈ rd',
+      y < k.tbl.nextId ∧ ∀ s2 ∈ k.tbl.socks, s2.fd = y → s2.tcb.isSome = true)
     (hself : Extends k.tbl (k.tbl.modify fd f) o' → ∀ s ∈ k.tbl.socks, s.fd = fd →
       LiveSock (k.tbl.modify fd f) o' (f s) ∧
         ((f s).listen.isSome = true → (f s).fd ∈ o' ∧ (f s).tcb = none ∧ (f s).tcp = true ∧ (f s).fdClosed = false))
     (h : Live k o) : Live { k with tbl := k.tbl.modify fd f } o' := by
   have hext := extends_modify k.tbl fd f o' hfd hls hrd
-  refine live_step h h.fix (tinv_modify _ _ _ hfd hb h.tinv) (cinv_modify _ _ _ hfd hb hv h.cinv) hext ?_
+  refine live_step h h.fix (tinv_modify _ _ _ hfd hb h.tinv) (cinv_modify _ _ _ hfd hb hv h.cinv)
+    (rinv_modify _ _ _ hfd htcb hq h.rinv) hext ?_
   intro s' hs'
   have hs'' : s' ∈ k.tbl.socks.map (modFn fd f) := hs'
   rw [List.mem_map] at hs''
@@ -54,7 +58,8 @@ theorem live_modify_inert (k : Kernel) (fd : Fd) (f : Sock → Sock) (o : List F
     (hl : ∀ s, (f s).listen = s.listen) (ht : ∀ s, (f s).tcb = s.tcb)
     (hc : ∀ s, (f s).fdClosed = s.fdClosed) (hp : ∀ s, (f s).tcp = s.tcp)
     (h : Live k o) : Live { k with tbl := k.tbl.modify fd f } o := by
-  refine live_modify k fd f o o hfd hb hv ?_ ?_ (fun _ _ _ hx => hx) ?_ h
+  refine live_modify k fd f o o hfd hb hv ?_ ?_ (fun _ _ _ hx => hx) (fun s hs => by rw [ht]; exact hs)
+    (fun s hs _ rd' hrd y hy => h.rinv s hs rd' (by rw [← hl]; exact hrd) y hy) ?_ h
   · intro s _ _ hs; rw [hl]; exact hs
   · intro s _ _ rd hs; exact ⟨rd, by rw [hl]; exact hs, fun y hy => Or.inl hy⟩
   · intro hext s hs _
@@ -73,7 +78,8 @@ theorem live_modTcb (k : Kernel) (fd : Fd) (g : Tcb → Tcb) (o : List Fd)
     (h : Live k o) : Live (k.modTcb fd g) o := by
   refine live_modify k fd (fun s => { s with tcb := s.tcb.map g }) o o (fun _ => rfl) (fun _ => rfl)
     (fun _ => rfl) (fun _ _ _ hs => hs) (fun _ _ _ rd hs => ⟨rd, hs, fun y hy => Or.inl hy⟩)
-    (fun _ _ _ hx => hx) ?_ h
+    (fun _ _ _ hx => hx) (fun s hs => by cases hh : s.tcb <;> simp_all)
+    (fun s hs _ rd' hrd y hy => h.rinv s hs rd' hrd y hy) ?_ h
   intro hext s hs hsf
   refine ⟨?_, ?_⟩
   · rcases liveSock_ext' hext s (fun hx => hx) (h.live s hs) with h1 | h1 | ⟨hn, tc, htc, h1⟩
@@ -94,7 +100,7 @@ theorem live_remove (k : Kernel) (fd : Fd) (o o' : List Fd)
     (hnl : ∀ l ∈ k.tbl.socks, l.fd = fd → l.listen = none)
     (hsub : ∀ s ∈ k.tbl.socks, s.fd ≠ fd → s.fd ∈ o → s.fd ∈ o')
     (h : Live k o) : Live { k with tbl := k.tbl.remove fd } o' := by
-  refine live_step h h.fix (tinv_remove _ _ h.tinv) (cinv_remove _ _ h.cinv)
+  refine live_step h h.fix (tinv_remove _ _ h.tinv) (cinv_remove _ _ h.cinv) (rinv_remove _ _ h.rinv)
     (extends_remove k.tbl fd o' hnl) ?_
   intro s' hs'
   have : s' ∈ k.tbl.socks.filter (·.fd != fd) := hs'
